@@ -44,6 +44,7 @@ type Program struct {
 	LateBound map[*types.Var]*ast.FuncLit  // var x T; x = <value> exactly once: literal if a FuncLit
 	LateAny   map[*types.Var]bool
 	LitCtx    map[*ast.FuncLit]types.Type
+	InitBind  map[*types.Var]ast.Expr // variable defined exactly once (var x = e / x := e) and never re-assigned: its initialiser
 }
 
 func loadProgram(repo string) (*Program, error) {
@@ -63,7 +64,7 @@ func loadProgram(repo string) (*Program, error) {
 	p := &Program{Fset: fset, Pkgs: map[string]*packages.Package{}, Units: map[string]*UnitInfo{},
 		UnitOfLit: map[*ast.FuncLit]*UnitInfo{}, UnitOfFn: map[*types.Func]*UnitInfo{},
 		Mutable: map[*types.Var]bool{}, LateBound: map[*types.Var]*ast.FuncLit{}, LateAny: map[*types.Var]bool{},
-		LitCtx:    map[*ast.FuncLit]types.Type{},
+		LitCtx:    map[*ast.FuncLit]types.Type{}, InitBind: map[*types.Var]ast.Expr{},
 		Contracts: &ContractSet{Units: map[string]*UnitSpec{}, Models: map[string]*UnitSpec{}}}
 	for _, pk := range pkgs {
 		if len(pk.Errors) > 0 {
@@ -140,6 +141,7 @@ func (p *Program) discover(pk *packages.Package, f *ast.File) {
 		p.discoverLits(u, fd.Body, pk)
 		p.captureAnalysis(pk, fd)
 		p.literalContexts(pk, fd)
+		p.initBindings(pk, fd)
 	}
 	for _, u := range p.Units {
 		if u.Lit != nil && u.CtxType == nil {
@@ -431,4 +433,62 @@ func (p *Program) literalContexts(pk *packages.Package, fd *ast.FuncDecl) {
 func (p *Program) pos(n ast.Node) string {
 	ps := p.Fset.Position(n.Pos())
 	return fmt.Sprintf("%s:%d", filepath.Base(ps.Filename), ps.Line)
+}
+
+
+// initBindings records, for local variables that are defined once with an
+// initialiser and never assigned again, that initialiser (function literals and
+// method values are what callers are interested in).
+func (p *Program) initBindings(pk *packages.Package, fd *ast.FuncDecl) {
+	info := pk.TypesInfo
+	defs := map[*types.Var]ast.Expr{}
+	assigned := map[*types.Var]bool{}
+	ast.Inspect(fd.Body, func(n ast.Node) bool {
+		switch y := n.(type) {
+		case *ast.ValueSpec:
+			if len(y.Values) == len(y.Names) {
+				for i, nm := range y.Names {
+					if v, ok := info.Defs[nm].(*types.Var); ok {
+						defs[v] = y.Values[i]
+					}
+				}
+			}
+		case *ast.AssignStmt:
+			for i, l := range y.Lhs {
+				id, ok := l.(*ast.Ident)
+				if !ok {
+					continue
+				}
+				if y.Tok == token.DEFINE {
+					if v, ok := info.Defs[id].(*types.Var); ok && len(y.Rhs) == len(y.Lhs) {
+						defs[v] = y.Rhs[i]
+						continue
+					}
+				}
+				if v, ok := info.Uses[id].(*types.Var); ok {
+					assigned[v] = true
+				}
+			}
+		case *ast.IncDecStmt:
+			if id, ok := y.X.(*ast.Ident); ok {
+				if v, ok := info.Uses[id].(*types.Var); ok {
+					assigned[v] = true
+				}
+			}
+		case *ast.UnaryExpr:
+			if y.Op == token.AND {
+				if id, ok := y.X.(*ast.Ident); ok {
+					if v, ok := info.Uses[id].(*types.Var); ok {
+						assigned[v] = true
+					}
+				}
+			}
+		}
+		return true
+	})
+	for v, e := range defs {
+		if !assigned[v] && !p.Mutable[v] {
+			p.InitBind[v] = e
+		}
+	}
 }
